@@ -1,6 +1,6 @@
 SPECIFICATION Spec
 CONSTANTS
-  MaxLen = 4
+  MaxLen = 5
   MaxRate = 2
 INVARIANT ChosenNegative
 INVARIANT RandomPositionInRange
